@@ -39,10 +39,11 @@ class SGen:
         mk("r", "real", [N])
         mk("lm", "logical", [N])
         mk("h", "integer", [N + 1])
-        mk("g", "integer", [N + 3])
+        mk("g", "integer", [2 * N + 1])
         mk("d", "integer", [N, self.M2])
         mk("e", "integer", [N, self.M2])
         self.extra_scalars = ["widx1"] if clash else []
+        self.mod = None
         self.procs = self.make_procs() if procs else []
         self.allow_cb = allow_cb
         self.in_where_assigned = set()
@@ -301,6 +302,24 @@ class SGen:
             els.append((None, [self.wassign(env) for _ in range(r.randint(1, 2))]))
         return ("where", mask, body, els)
 
+    def where_stride(self, env):
+        """WHERE with strided sections g(lo:hi:2) in the mask / right-hand side (the unchanged reader drops the stride)"""
+        r = self.r
+        lb, ub = self.arr["g"][1][0]
+        st = 2
+
+        def sec():
+            lo = r.randint(lb, ub - 2 * (self.N - 1))
+            return ("sec", "g", [("rng", ("lit", lo), ("lit", lo + 2 * (self.N - 1)), ("lit", st))])
+        first = r.choice(self.good_first() or ["a"])
+        if self.arr[first][0] != "integer":
+            first = "a"
+        if r.random() < 0.5:
+            mask = ("bin", r.choice(RELS), sec(), self.iexpr(env, 2, where=True))
+        else:
+            mask = ("bin", r.choice(RELS), ("sec", first, [(":",)]), self.iexpr(env, 2, where=True))
+        return ("where", mask, [("wassign", r.choice(["a", "b", "c"]), [(":",)], ("bin", "Add", sec(), self.aiexpr(env, 2, False)))], [])
+
     def where_red(self, env):
         """WHERE containing a reduction without dim= over a section (mis-lowered by the unchanged reader)"""
         r = self.r
@@ -472,6 +491,8 @@ class SGen:
         if c < 0.9:
             if "reduction" in self.defects and r.random() < 0.5:
                 return self.where_red(env)
+            if "stride" in self.defects and r.random() < 0.5:
+                return self.where_stride(env)
             return self.where1(env) if (self.simple or r.random() < 0.85) else self.where2(env)
         if self.simple:
             return self.assign(env)
@@ -498,7 +519,8 @@ class SGen:
             if k == "select":
                 out.append(self.select({}, 2, False))
             elif k == "where1":
-                out.append(self.where_red({}) if "reduction" in self.defects else self.where1({}))
+                out.append(self.where_red({}) if "reduction" in self.defects else
+                           self.where_stride({}) if "stride" in self.defects else self.where1({}))
             elif k == "where2":
                 out.append(self.where2({}))
             elif k == "loop":
@@ -543,11 +565,73 @@ class SGen:
                                  [([("v", ("lit", 0))], [("assign", "z", [], ("var", "v"))]),
                                   (None, [("assign", "z", [], ("bin", "Sub", ("var", "w"), ("var", "v")))]),
                                   ([("r", ("lit", 1), None)], [("assign", "z", [], ("intr", "IMax", [("var", "w"), ("var", "v")]))])])]))
+        procs += self.make_state_procs()
         return procs
+
+    def make_state_procs(self):
+        """procedures that keep state between calls in static locals -- made static by a SAVE statement with a
+        list, the SAVE attribute, a bare SAVE statement or an initial value --, use a local and a module
+        PARAMETER and a module variable.  The declarations the reader keeps are part of the behaviour."""
+        r = self.r
+        self.mod = {"params": [("nmax", r.choice([2, 3, 4]))], "vars": [("mcount", r.randint(0, 3))]}
+        mechs = [m for m in ("list", "attr", "bare", "init") if r.random() < 0.75]
+        if "list" not in mechs and r.random() < 0.8:
+            mechs.append("list")
+        if not mechs:
+            mechs = ["list"]
+        out = []
+        v = lambda n: ("var", n)
+        for mech in mechs:
+            c0, k = r.randint(1, 20), r.randint(1, 3)
+            first = [("aassign", "hist", [(":",)], ("lit", 0)), ("assign", "first", [], ("blit", 0))]
+            inits = {"first": 1}
+            if mech == "init":
+                inits["cnt"] = c0
+                static = None
+            else:
+                first.insert(0, ("assign", "cnt", [], ("lit", c0)))
+                static = {"mech": mech, "names": [] if mech == "bare" else ["cnt", "hist"]}
+            if mech == "init":
+                static = {"mech": "attr", "names": ["hist"]}      # the array is saved through the attribute
+            body = [("if", v("first"), first, []),
+                    ("assign", "cnt", [], ("bin", "Add", v("cnt"), ("bin", "Mul", v("step"), v("kp")))),
+                    ("assign", "tmp", [], ("idx", "hist", [("lit", 0)])),
+                    ("assign", "hist", [("lit", 0)], ("idx", "hist", [("lit", 1)])),
+                    ("assign", "hist", [("lit", 1)], ("idx", "hist", [("lit", 2)])),
+                    ("assign", "hist", [("lit", 2)], v("cnt")),
+                    ("assign", "mcount", [], ("bin", "Add", v("mcount"), ("lit", 1))),
+                    ("assign", "res", [], ("bin", "Add", ("bin", "Add", v("cnt"), v("tmp")), v("mcount")))]
+            out.append(dict(name="tick_" + mech, kind="sub", result=None, stateful=True,
+                            dummies=[("step", "integer", "in", None), ("res", "integer", "out", None)],
+                            params=[("kp", ("bin", "Mul", ("lit", k), v("nmax")))],
+                            locals=[("cnt", "integer", []), ("hist", "integer", [(0, 2)]), ("first", "logical", []),
+                                    ("tmp", "integer", [])],
+                            inits=inits, static=static, body=body))
+        return out
+
+    def state_call(self, p, env=None):
+        r = self.r
+        args = [("step", ("bin", "Add", self.iexpr(env or {}, 2, where=True), ("lit", r.randint(0, 2)))),
+                ("res", ("var", r.choice(["s", "t", "m"])))]
+        if r.random() < 0.5:
+            r.shuffle(args)
+            return ("call", p["name"], args)
+        return ("call", p["name"], [(None, a[1]) for a in args])
+
+    def with_state_calls(self, prog):
+        """the program with two or three calls of every stateful procedure inserted at top level"""
+        prog = list(prog)
+        for p in self.procs:
+            if p.get("stateful"):
+                for _ in range(self.r.randint(2, 3)):
+                    prog.insert(self.r.randint(0, len(prog)), self.state_call(p))
+        return prog
 
     def call(self, env):
         r = self.r
         p = r.choice([q for q in self.procs if q["kind"] == "sub"])
+        if p.get("stateful"):
+            return self.state_call(p, env)
         if p["name"] == "addto":
             tgt = ("var", r.choice(["s", "t", "m"]))
             # actual arguments associated with intent(in) dummies are expressions over scalars and the
